@@ -80,6 +80,9 @@ def run_cgls(c, rec):
     require(maxdiff(b, bc) == 0, "CGLS altered the caller's right-hand side b", before=bc, after=b)
     # A has singular values in [1, 10]: conjugate gradients on the (shifted) normal equations reach 1e-12 in well under
     # 50 n + 200 iterations; a run that uses the whole budget returns a point that is not the solution
+    if k >= maxit and m < n and s == 0:
+        rec.inconc("cgls_iteration_cap_singular_normal_equations")   # under-determined without shift: A^T A is singular
+        return
     require(k < maxit, "CGLS did not converge within 50 n + 200 iterations on a system with condition number <= 100", k=k, maxit=maxit, shift=s)
     H = Am.T @ Am + s * np.eye(n)
     g = Am.T @ b
@@ -146,6 +149,9 @@ def _run_pcgls_body(c, rec, Am, P, b, x0, m, n, maxit):
     bc0 = b.copy()
     sol, k = must(lambda: cuqi.solver._solver.PCGLS(op_forms(Am, c["form"]), b, x0, sp.csc_matrix(P), maxit, 1e-12).solve(), "PCGLS.solve")
     require(maxdiff(b, bc0) == 0, "PCGLS altered the caller's right-hand side b")
+    if k >= maxit and m < n:
+        rec.inconc("pcgls_iteration_cap_singular_normal_equations")   # under-determined: A^T A is singular
+        return
     require(k < maxit, "PCGLS did not converge within 50 n + 200 iterations on a well-conditioned system", k=k, maxit=maxit)
     g = Am.T @ (b - Am @ sol)
     scale = 1 + np.linalg.norm(Am.T @ b) + np.linalg.norm(Am) ** 2 * np.linalg.norm(sol)
